@@ -73,6 +73,10 @@ func c10(tier string) []*explore.Scenario {
 	for _, end := range []string{"stop", "read", "write", "none"} {
 		out = append(out, expiredStream("C10", end, 1))
 	}
+	// the connection ends while resets the server issued are still waiting for its writer
+	for _, end := range []string{"stop", "write-fails", "read-fails"} {
+		out = append(out, c12ResetsUnread("C10", end, 2))
+	}
 	return out
 }
 
